@@ -54,6 +54,9 @@ void dbus_free (void *memory)
 {
   if (memory) { vf_live_blocks--; free (memory); }
 }
+#ifdef VF_REPLAY
+__attribute__ ((weak))        /* a harness may bring its own (gcc refuses the duplicate that goto-cc resolves in favour of the harness) */
+#endif
 void dbus_free_string_array (char **str_array)
 {
   if (str_array)
